@@ -17,7 +17,7 @@ import tempfile
 
 REPO = os.environ.get('CATSA_REPO', '/repo')
 VERIF = os.path.dirname(os.path.dirname(os.path.abspath(__file__)))
-CACHE = os.path.join(VERIF, '.cache')
+CACHE = os.environ.get('CATSA_CACHE') or os.path.join(VERIF, '.cache')
 
 
 class AnalysisBroken(Exception):
